@@ -34,8 +34,16 @@ def main(argv):
         res = core.Result(pid)
         extra = mod.run(repo, res, a.tier) or {}
         res.verify_instance_counts()
-        if a.tier == "thorough" and hasattr(mod, "thorough"):
-            extra.update(mod.thorough(repo, res) or {})
+        if a.tier == "thorough":
+            from . import selftest
+
+            summary, failures = selftest.run(pid, repo, res)
+            extra["selftest"] = summary
+            print("  selftest: %s" % {k: v for k, v in summary.items() if k != "details"})
+            for f in failures:
+                print("  SELFTEST-WEAKNESS (checker, not the property): %s" % f)
+            if hasattr(mod, "thorough"):
+                extra.update(mod.thorough(repo, res) or {})
         code = core.report(pid, a.tier, res, repo, t0, extra)
         if a.replay:
             keys = {f.key for f in res.findings}
